@@ -252,6 +252,32 @@ def limits(report):
         probs.append("two variables requesting slot 5 accepted")
     except pt.TealInternalError:
         pass
+    # the same, for every way the two variables can be spread over routines (local to main, local to a subroutine, shared between routines)
+    nprobe = 4
+    for place_a in ("main", "sub", "shared"):
+        for place_b in ("main", "sub", "shared", "sub2"):
+            for version, kw in ((6, {}), (10, {}), (8, {"optimize": pt.OptimizeOptions(scratch_slots=False)})):
+                nprobe += 1
+                a, b = pt.ScratchVar(pt.TealType.uint64, 10), pt.ScratchVar(pt.TealType.uint64, 10)
+                use = {"main": [], "sub": [], "sub2": []}
+                for v, place, val in ((a, place_a, 1), (b, place_b, 2)):
+                    for r in (("main", "sub") if place == "shared" else (place,)):
+                        use[r] += [v.store(pt.Int(val) + pt.Txn.fee()), pt.Log(pt.Itob(v.load()))]
+
+                @pt.Subroutine(pt.TealType.none)
+                def s1():
+                    return pt.Seq(*use["sub"]) if use["sub"] else pt.Log(pt.Bytes("s1"))
+
+                @pt.Subroutine(pt.TealType.none)
+                def s2():
+                    return pt.Seq(*use["sub2"]) if use["sub2"] else pt.Log(pt.Bytes("s2"))
+                try:
+                    pt.compileTeal(pt.Seq(*use["main"], s1(), s2(), pt.Approve()), pt.Mode.Application, version=version, **kw)
+                    probs.append(f"two variables requesting slot 10 accepted (first used in {place_a}, second in {place_b}, v{version})")
+                except pt.TealInternalError:
+                    pass
+                except Exception as e:
+                    probs.append(f"duplicate-id probe ({place_a}, {place_b}, v{version}): {type(e).__name__}: {str(e)[:100]}")
     for bad in (-1, 256, 1000):
         try:
             pt.ScratchVar(pt.TealType.uint64, bad)
@@ -259,7 +285,7 @@ def limits(report):
         except pt.TealInputError:
             pass
     report.ob(Ob(id="O10.2ab/limit-probes", function="pyteal.compiler.scratchslots.assignScratchSlotsToSubroutines", kind="E",
-                 status="refuted" if probs else "discharged", backend="enumeration(4 probes)", detail="duplicate requested ids and ids outside [0,256) are rejected", model=probs or None))
+                 status="refuted" if probs else "discharged", backend=f"enumeration({nprobe} probes)", detail="duplicate requested ids (the two variables local to main / to a subroutine / shared between routines, in every combination) and ids outside [0,256) are rejected", model=probs or None))
 
 
 def frame_locals_case(job):
